@@ -234,7 +234,7 @@ def Sol.wf (s : Sol) : Bool :=
     && triOk s
     && (render s).all (fun l => rstrip l == l)
     && s.comments.all (fun c => strip c == c)
-    && rstrip s.hdrC == s.hdrC
+    && (match s.hdrC.getLast? with | some ch => !isSpace ch | none => false)
 
 
 /-! ## well-formedness of a SINEX *text* (the "well-formed output" clause of C18) -/
